@@ -122,6 +122,11 @@ def lends (get : Get) (d : D) : Nat :=
   | some v => toNat v
   | none => firstNonzero d.lenOrder
 
+/-- F36 (open): without `event count` and without a non-empty feature `len(ds)` raises
+    `ValueError` ("Could not determine size of dataset"), so the checker reports nothing -/
+def sizeUndetermined (get : Get) (d : D) : Bool :=
+  (get ("experiment", "event count")).isNone && firstNonzero d.lenOrder == 0
+
 /-- `check_basin_features_internal` -/
 def vBasin (d : D) : List Cue :=
   d.basins.flatMap fun b =>
@@ -316,6 +321,42 @@ def writtenRaw (w : Written) : D :=
 
 /-- … and after the exit hook -/
 def writerD (w : Written) : D := rectifyD (writtenRaw w)
+
+/-! ### writer histories with `mode="replace"` -/
+
+inductive WOp where
+  | append (k : Nat)      -- `store_feature` of `k` more events for every feature
+  | replace (k : Nat)     -- `RTDCWriter(mode="replace")`: every feature stored again, `k` events
+  deriving DecidableEq, Repr
+
+/-- `(events per feature, stored index)`; the offset of the enforced index enumeration is the
+    length of `events/index` *after* the replace-mode deletion -/
+def stepHist (st : Nat × List Nat) : WOp → Nat × List Nat
+  | .append k => (st.1 + k, st.2 ++ List.range' (st.2.length + 1) k)
+  | .replace k => (k, List.range' 1 k)
+
+def runHist (h : List WOp) : Nat × List Nat := h.foldl stepHist (0, [])
+
+/-- the variant that reads the offset before deleting the old data -/
+def stepHistStale (st : Nat × List Nat) : WOp → Nat × List Nat
+  | .append k => (st.1 + k, st.2 ++ List.range' (st.2.length + 1) k)
+  | .replace k => (k, List.range' (st.2.length + 1) k)
+
+/-- the file after a writer history (index stored in every step) -/
+def histD (w : Written) (h : List WOp) : D :=
+  { writerD { w with n := (runHist h).1, storeIndex := true } with index := some (runHist h).2 }
+
+/-! ### exports of a feature subset -/
+
+/-- `export.hdf5(features=subset, filtered=False)`: metadata copied, only the kept features -/
+def subsetD (d : D) (keep : String → Bool) : D :=
+  { d with
+    events := d.events.filter fun e => keep e.1
+    traces := if keep "trace" then d.traces else []
+    images := d.images.filter fun i => keep i.1
+    h5events := d.h5events.filter fun e => keep e.1
+    index := if keep "index" then d.index else none
+    lenOrder := (d.events.filter fun e => keep e.1).map (·.2) }
 
 /-! ## `dclab-verify-dataset` -/
 
